@@ -431,11 +431,32 @@ void run_c17(const Json &cs, RunResult &r) {
 Json gen_c17(sim::Rng &rng) {
     Json cs = Json::object(); Json ops = Json::array();
     size_t dim = rng.chance(100) ? 1000000 : (rng.chance(300) ? (size_t) rng.range(40, 80) : (size_t) rng.range(1, 64));
-    auto rset = [&]() { Json s = Json::array(); std::set<size_t> t; int k = (dim >= 40 && rng.chance(250)) ? (int) rng.range(17, 48) : (int) rng.range(0, 8); for (int i = 0; i < k; i++) t.insert((size_t) rng.below(dim)); for (auto x : t) s.push((long long) x); return s; };
+    bool lopsided = rng.chance(60);        // a few vectors with 64..400 entries next to vectors with 0..8: size ratios beyond 32
+    if (lopsided) dim = (size_t) rng.pick(std::vector<int> { 512, 1024, 4096 });
+    std::vector<size_t> lastbig;
+    auto rset = [&]() {
+        Json s = Json::array(); std::set<size_t> t;
+        int k = (dim >= 40 && rng.chance(250)) ? (int) rng.range(17, 48) : (int) rng.range(0, 8);
+        if (lopsided && rng.chance(350)) {
+            k = (int) rng.range(64, 400);
+            if (rng.chance(500)) { size_t base = rng.below(dim / 2); for (int i = 0; i < k; i++) t.insert(base + (size_t) i); k = 0; }
+            for (int i = 0; i < k; i++) t.insert((size_t) rng.below(dim));
+            lastbig.assign(t.begin(), t.end()); k = 0;
+        } else if (lopsided && !lastbig.empty() && rng.chance(600)) {
+            // a short vector interleaved with the last long one: members, direct neighbours of members, and gaps
+            k = (int) rng.range(2, 6);
+            for (int i = 0; i < k; i++) { size_t x = lastbig[rng.below(lastbig.size())]; int d = (int) rng.range(-1, 2); if (d == 2) d = 0; if (d < 0 && x == 0) d = 0; t.insert(x + (size_t) (long) d < dim ? (size_t) ((long) x + d) : x); }
+            k = 0;
+        }
+        for (int i = 0; i < k; i++) t.insert((size_t) rng.below(dim));
+        for (auto x : t) s.push((long long) x);
+        return s;
+    };
     int n = (int) rng.range(1, 40);
     static const char *names[] = { "unit", "set", "copy", "move", "assign", "self_assign", "add", "add_assign", "add_assign", "add", "clear", "dot", "dot_set" };
     for (int k = 0; k < n; k++) {
         Json o = Json::object(); o["op"] = names[rng.below(13)];
+        if (lopsided && rng.chance(600)) o["op"] = rng.chance(450) ? "set" : "dot";     // long and short vectors meet in products
         o["a"] = (int) rng.below(4); o["b"] = (int) rng.below(4); o["c"] = (int) rng.below(4);
         o["i"] = (long long) rng.below(dim); o["s"] = rset();
         ops.push(o);
@@ -501,6 +522,17 @@ bool run_fpvec(const Json &ops, long long p0, RunResult &r, const char *tn, bool
         long long s = op.get_int("s", 1);
         if (o == "unit") { size_t i = (size_t) op["i"].as_int(); pool[a] = i; model[a].clear(); model[a][i] = 1; }
         else if (o == "copy") { V t(pool[b]); pool[a] = t; model[a] = model[b]; }
+        else if (o == "build") {
+            // a vector with many coordinates and chosen residues (often p-1, p-2, (p-1)/2), assembled through the public
+            // operations only: sum of scaled unit vectors
+            V acc(p); std::map<size_t, BigInt> m;
+            for (auto &cv : op["coords"].arr()) {
+                size_t i = (size_t) cv[0].as_int(); long long val = cv[1].as_int();
+                if (m.count(i) || norm(BigInt(val)) == 0) continue;
+                V u(p); u = i; u *= from_ll<P>(val); acc += u; m[i] = norm(BigInt(val));
+            }
+            pool[a] = acc; model[a] = m; wrapped = true;
+        }
         else if (o == "add" || o == "add_assign") {
             std::map<size_t, BigInt> m = model[a];
             for (auto &kv : model[b]) { BigInt v = norm((m.count(kv.first) ? m[kv.first] : BigInt(0)) + kv.second); if (m.count(kv.first) && m[kv.first] + kv.second >= bp) wrapped = true; if (v == 0) m.erase(kv.first); else m[kv.first] = v; }
@@ -604,10 +636,22 @@ Json gen_c18(sim::Rng &rng, uint64_t index) {
         int n = (int) rng.range(1, 30);
         static const char *names[] = { "unit", "unit", "copy", "add", "add_assign", "scale", "scale_assign", "dot", "clear", "add" };
         long long smax = t == 0 ? 40 : t == 1 ? (p > 1000 ? 2147483647LL : 100000) : 4000000000000000000LL;
+        bool many = rng.chance(300);      // vectors with up to 40 coordinates whose residues sit near p-1: long accumulations in a dot product
         for (int k = 0; k < n; k++) {
             Json o = Json::object(); o["op"] = names[rng.below(10)];
             o["a"] = (int) rng.below(3); o["b"] = (int) rng.below(3); o["c"] = (int) rng.below(3);
             o["i"] = (long long) rng.below(12);
+            if (many && rng.chance(300)) {
+                o["op"] = "build";
+                Json cv = Json::array(); int cnt = (int) rng.range(2, 40);
+                for (int q = 0; q < cnt; q++) {
+                    Json pr = Json::array(); pr.push((long long) rng.below(48));
+                    long long val = rng.chance(500) ? p - 1 - (long long) rng.below(3) : rng.chance(300) ? (p - 1) / 2 + (long long) rng.below(2) : rng.range(1, p > 2 ? p - 1 : 1);
+                    if (val < 1) val = 1;
+                    pr.push(val); cv.push(pr);
+                }
+                o["coords"] = cv;
+            }
             long long s = rng.chance(250) ? p * (long long) rng.range(0, 2) : rng.range(0, smax);
             if (s > smax) s = smax;
             if (rng.chance(300)) s = -s;
